@@ -66,7 +66,7 @@ macro_rules! with_kernel {
     ($params:expr, $k:expr) => {
         match $k {
             0 => $params.linear_kernel(),
-            1 => $params.gaussian_kernel(30.0),
+            1 => $params.gaussian_kernel(2.0),
             _ => $params.polynomial_kernel(1.0, 2.0),
         }
     };
@@ -75,8 +75,8 @@ macro_rules! with_kernel {
 impl Runnable for Cfg {
     fn run(&self) -> Out {
         let mut out = Out::new();
-        let x = data::blobs(self.data_seed, self.n, self.p, 2, 1.2);
-        let q = data::blobs(self.data_seed ^ 0x31, 40, self.p, 2, 1.5);
+        let x = data::blobs(self.data_seed, self.n, self.p, 2, 1.2) / 4.0;
+        let q = data::blobs(self.data_seed ^ 0x31, 40, self.p, 2, 1.5) / 4.0;
         let c = self.c10.max(1) as f64 / 10.0;
         let nu = self.nu100.clamp(5, 60) as f64 / 100.0;
         let yb: Array1<bool> = data::labels_from(&x, self.data_seed, 2, 0.1).mapv(|c| c == 1);
@@ -175,5 +175,9 @@ pub fn strategy(tier: Tier) -> impl Strategy<Value = Cfg> {
         1 => Just(Task::Defaults),
     ];
     (task, any::<u64>(), 12usize..=max_n, 1usize..=4, 0u8..3, 1u32..=50, 5u32..=60)
-        .prop_map(|(task, data_seed, n, p, kernel, c10, nu100)| Cfg { task, data_seed, n, p, kernel, c10, nu100 })
+        .prop_map(|(task, data_seed, n, p, kernel, c10, nu100)| {
+            // SVR with the polynomial kernel runs into the 10^7 iteration cap (minutes): not generated
+            let kernel = if matches!(task, Task::RegressEps | Task::RegressNu) && kernel == 2 { 1 } else { kernel };
+            Cfg { task, data_seed, n, p, kernel, c10, nu100 }
+        })
 }
